@@ -353,6 +353,7 @@ def regOp (d : DState) (toks : List String) : Option (DState × String) :=
   | ["reg.failissue", id] => some (regStep d (.issueFail id))
   | ["reg.revoke", ids] => (listOf? some ids).map fun ids => regStep d (.revoke ids)
   | ["reg.refresh", id] => some (regStep d (.refresh id))
+  | ["reg.add", ids] => (listOf? some ids).map fun ids => regStep d (.add ids)
   | ["reg.persist"] => some (regStep d .persist)
   | ["reg.state"] =>
     let r := d.reg
